@@ -200,7 +200,7 @@ def run(chk, replay=None):
         exhaustive = [([[3, 2, 0], [2, 3, 0], [1, 3, 0], [3, 1, 0], [2, 2, 0]], (5,)), ([[2, 2, 1], [1, 2, 2]], (5, 9))]
         sims = [([[3, 3, 0], [4, 3, 0]], (5,), 150), ([[2, 2, 2], [3, 2, 2]], (5, 9), 60)]
     for grids, ns in ([([[3, 3, 0]], (5,)), ([[2, 2, 2]], (5, 9))] if not thorough else
-                      [([[3, 3, 0], [4, 2, 0], [2, 4, 0], [5, 2, 0]], (5,)), ([[2, 2, 2], [3, 2, 1], [2, 1, 3], [3, 1, 2]], (5, 9))]):
+                      [([[3, 3, 0], [4, 2, 0], [2, 4, 0]], (5,)), ([[2, 2, 2], [3, 2, 1], [2, 1, 3], [3, 1, 2]], (5, 9))]):
         check_only(chk, grids, ns)      # [S] only: all fields on the next larger grids, all workers
     jobs = []
     with cf.ThreadPoolExecutor(max_workers=10) as ex:
